@@ -167,6 +167,10 @@ pub fn history(ctx: &mut Ctx) {
             // after update/delete the result is a single archive at the part-less path
             state = match read_state(&sbx, "a.pna") { Ok(s) => s, Err(e) => { ctx.violation("C11", "archive unreadable after a step", json!({"history":steps,"why":e})); break; } };
             let after = state_pairs(&state);
+            // C14: what the command wrote is well-formed for the independent reader
+            if let Ok(b) = std::fs::read(sbx.path("a.pna")) {
+                if let Err(why) = crate::refdec::strict_archive(&b, vec![], false) { ctx.violation("C14", "a command wrote an archive that is not well-formed", json!({"history":steps,"why":why})); }
+            }
             if let Some(o) = &oracle { if let Some(why) = o(&before, &after) { ctx.violation("C11", &why, json!({"history":steps,"before":before,"after":after})); } }
             ctx.case(json!({"step":steps.len(),"split":split,"solid":solid}), model_req, format!("ok {}", uwire(&after)), true);
             if sbx.path("a.pna").exists() && archive_arg != "a.pna" { break; } // part set replaced by a single file: stop this history here
